@@ -529,6 +529,56 @@ def generate(table, pred, tier="quick"):
             why=f"model variance of GcBuilder in its value type T = {var}: a covariant builder stores a &'gc String in the arena",
             allow=["region"], twin_of="builder_value_variance_twin", src=prog, exploit=prog)
 
+    # ---- builder rule: one coercion probe per derived row (Brand.Table.builderRows) -------------
+    for row in pred.get("builder", []):
+        a = adts.get(row["adt"])
+        if not a or not a.get("pubPath"):
+            add(id=f"builder_{fid(row['adt'])}_{fid(row['param'])}", cls="builder", negative=False, predict="accept",
+                why="builder row for a type client code cannot name", src="fn main() {}\n")
+            continue
+
+        def inst(t0, a=a, row=row):
+            args = ["'g"] * len(a["lts"])
+            for q in a["tys"]:
+                if q["name"] == row["param"]:
+                    args.append(t0)
+                elif q["hasDefault"]:
+                    break
+                else:
+                    args.append("i32")
+            args += ["8"] * len(a["consts"])
+            return a["pubPath"] + "<" + ", ".join(args) + ">"
+        base = f"builder_{fid(row['adt'])}_{fid(row['param'])}"
+        tid = base + "_twin"
+        hdr = "#![allow(unused)]\n"
+        sig = "<'g, 'short: 'g, 'long: 'short>"
+        add(id=tid, cls="builder", negative=False, predict="accept", why="identity",
+            src=hdr + f"fn id{sig}(x: {inst(chr(38) + chr(39) + 'long u8')}) -> {inst(chr(38) + chr(39) + 'long u8')} {{ x }}\nfn main() {{}}\n")
+        exploit = None
+        if row["adt"] == "GcBuilder":
+            exploit = """#![allow(unused)]
+use gc_arena::{Arena, DynamicRootSet, Gc, GcBuilder, Rootable};
+fn main() {
+    let mut arena = Arena::<Rootable![DynamicRootSet<'_>]>::new(|mc| DynamicRootSet::new(mc));
+    let h = arena.mutate(|mc, set| {
+        let victim = Gc::new(mc, String::from("victim-victim-victim-victim"));
+        let b: GcBuilder<'_, &'static String> = GcBuilder::new(); // `&'static String: Collect` holds
+        let b: GcBuilder<'_, &String> = b;                        // covariance: now `&'gc String`
+        let g = b.write(mc, Gc::as_ref(victim));                  // an untraced `&'gc String` in the arena
+        set.stash::<Rootable!['a => &'a String]>(mc, g)
+    });
+    arena.finish_cycle(); arena.finish_cycle();                    // `victim` is unreachable for the collector
+    arena.mutate(|mc, _| { for _ in 0..256 { Gc::new(mc, String::from("XXXXXXXXXXXXXXXXXXXXXXXXXXX")); } });
+    let v = arena.mutate(|_, set| (**set.fetch(&h)).clone());
+    println!("DANGLING-READ through a reference stored by a coerced builder: wrote victim-victim-victim-victim, read {:?}", v);
+}
+"""
+        add(id=base + "_shrink", cls="builder", negative=True,
+            predict="accept" if row["variance"] in ("co", "bi") else "reject",
+            why=f"builders_invariant_in_value_type: model variance of {row['adt']} in {row['param']} = {row['variance']}; stores through {row['storeMethods']}",
+            allow=["region"], twin_of=tid, exploit=exploit, adt=row["adt"],
+            src=hdr + f"fn shrink{sig}(x: {inst(chr(38) + chr(39) + 'long u8')}) -> {inst(chr(38) + chr(39) + 'short u8')} {{ x }}\nfn main() {{}}\n")
+
     # ---- Send / Sync of every nameable type ----------------------------------------------------
     must_not = set(pred.get("requiredNotSendSync", []))
     for a in table["adts"]:
